@@ -99,21 +99,6 @@ pub fn check(sc: &Scenario, out: &RunOutput) -> OracleResult {
     // (4) the honest connections on the attacked socket are not disturbed (unless the attacker
     // spoofed the honest peer's address AND named exactly its connection id: that is an attack
     // on that connection itself); that includes the connect/accept service after the attack
-    let c01 = super::c01::check(sc, out);
-    for mut v in c01.violations {
-        // only streams of honest connections count (the attacker's own stream is its business)
-        let honest = v.msg.strip_prefix("conn ").and_then(|s| s.split(' ').next()).and_then(|k| k.parse::<usize>().ok()).is_some_and(|k| sc.connects[k].node < n_real);
-        if !honest || direct {
-            continue;
-        }
-        v.property = P;
-        v.tag = match v.tag {
-            "content-mismatch" => "honest-stream-carries-foreign-bytes",
-            "read-more-than-written" => "honest-stream-read-more-than-written",
-            t => t,
-        };
-        res.violations.push(v);
-    }
     let accts = stream_accounts(sc, h);
     let b_acc = sc.param("acceptor_bytes").unwrap_or(0) as u64;
     let mut errs: BTreeMap<(usize, usize), (T, String)> = BTreeMap::new();
@@ -136,15 +121,109 @@ pub fn check(sc: &Scenario, out: &RunOutput) -> OracleResult {
             _ => {}
         }
     }
+    // An honest SYN whose receive key (peer address, id + 1) is, at the instant it arrives, the
+    // key of a live connection between the same two honest sockets (both ends picked adjacent
+    // ids independently): that is a clash among the honest parties themselves, the SYN is
+    // dropped and never retried. Not the hostile traffic's doing: such a connect is not judged.
+    let mut own_clash: std::collections::BTreeSet<usize> = Default::default();
+    let mut named_directly: std::collections::BTreeSet<usize> = Default::default();
+    let mut syn_id: BTreeMap<usize, u16> = BTreeMap::new();
+    {
+        let mut live: std::collections::HashMap<(std::net::SocketAddr, std::net::SocketAddr, u16), u16> = Default::default();
+        let mut syn_ords: std::collections::HashMap<u64, usize> = Default::default();
+        let mut starts: BTreeMap<usize, T> = BTreeMap::new();
+        for (t, a) in h.apps() {
+            if matches!(a.kind, AppKind::ConnectStart) {
+                starts.insert(a.conn, t);
+            }
+        }
+        for (t, ev) in &h.evs {
+            match ev {
+                Ev::Probe(ProbeEvent::ConnRecvId { key, conn_id_recv }) => {
+                    live.insert((key.local, key.remote, key.conn_id_send), *conn_id_recv);
+                }
+                Ev::Probe(ProbeEvent::ConnDropped(key)) => {
+                    live.remove(&(key.local, key.remote, key.conn_id_send));
+                }
+                Ev::Emit(e) if e.real => {
+                    if let Some(p) = e.pkt.as_ref().filter(|p| p.typ == crate::codec::ST_SYN) {
+                        // (one SYN per connect call, never retried; a refused send is repeated a
+                        // little later: the earliest started connect that has no SYN yet)
+                        let cand = sc.connects.iter().enumerate().filter(|(k, c)| c.node < n_real && c.to < n_real && sc.addr(c.node) == e.src && sc.addr(c.to) == e.dst && starts.get(k).is_some_and(|s| s <= t) && !syn_id.contains_key(k)).min_by_key(|(k, _)| starts[k]);
+                        if let Some((k, _)) = cand {
+                            syn_ords.insert(e.ord, k);
+                            syn_id.insert(k, p.conn_id);
+                        }
+                    }
+                }
+                Ev::Deliver(d) => {
+                    if let (Some(k), Some(p)) = (syn_ords.get(&d.ord), d.pkt.as_ref()) {
+                        let want = p.conn_id.wrapping_add(1);
+                        if live.iter().any(|((local, remote, _), recv)| *local == d.dst && *remote == d.src && *recv == want) {
+                            own_clash.insert(*k);
+                        }
+                    }
+                }
+                _ => {}
+            }
+        }
+        // A datagram forged with one honest party's address that names (by design or by the
+        // luck of a random number) one of the two ids of their connection is an attack on that
+        // very connection: "the worst a peer can do is break its own connection" is about the
+        // others.
+        for (_, ev) in &h.evs {
+            if let Ev::Emit(e) = ev {
+                if e.real {
+                    continue;
+                }
+                let Some(p) = e.pkt.as_ref() else { continue };
+                for (k, c) in sc.connects.iter().enumerate() {
+                    let Some(x) = syn_id.get(&k) else { continue };
+                    let (a, b) = (sc.addr(c.node), sc.addr(c.to));
+                    if ((e.src == a && e.dst == b) || (e.src == b && e.dst == a)) && (p.conn_id == *x || p.conn_id == x.wrapping_add(1)) {
+                        named_directly.insert(k);
+                    }
+                }
+            }
+        }
+    }
+    res.probe("honest_id_clashes_not_judged", own_clash.len() as u64);
+    res.probe("honest_connections_named_directly_not_judged", named_directly.len() as u64);
+    let c01 = super::c01::check(sc, out);
+    for mut v in c01.violations {
+        // only streams of honest connections count (the attacker's own stream is its business)
+        let honest = v.msg.strip_prefix("conn ").and_then(|s| s.split(' ').next()).and_then(|k| k.parse::<usize>().ok()).is_some_and(|k| sc.connects[k].node < n_real && !named_directly.contains(&k) && !own_clash.contains(&k));
+        if !honest || direct {
+            continue;
+        }
+        v.property = P;
+        v.tag = match v.tag {
+            "content-mismatch" => "honest-stream-carries-foreign-bytes",
+            "read-more-than-written" => "honest-stream-read-more-than-written",
+            t => t,
+        };
+        res.violations.push(v);
+    }
+    // the honest conversation is judged as the generator wrote it (token, answer, closing calls)
+    let scripts_as_generated = sc.param("app_scripts_hash").is_none_or(|h| h == sc.app_scripts_hash());
     let mut honest_ok = 0u64;
     for (k, c) in sc.connects.iter().enumerate() {
-        if c.node >= n_real || direct {
+        if c.node >= n_real || direct || own_clash.contains(&k) || named_directly.contains(&k) || !scripts_as_generated {
             continue;
         }
         let n_conn = match c.side.w.first() {
             Some(crate::scenario::WOp::Write { n, .. }) => *n,
             _ => 0,
         };
+        // (the first 8 bytes a connector writes identify its stream at the accepting side: a
+        // script without them - only a minimiser produces one - cannot be judged)
+        // (likewise both applications must close their streams: without the closing calls a
+        // connection idles into its inactivity time-out, which is nobody's fault)
+        let closes = |w: &Vec<crate::scenario::WOp>| w.iter().any(|o| matches!(o, crate::scenario::WOp::Shutdown));
+        let answers = |w: &Vec<crate::scenario::WOp>| b_acc == 0 || matches!(w.first(), Some(crate::scenario::WOp::Write { n, .. }) if *n == b_acc);
+        if n_conn < 8 || !closes(&c.side.w) || !sc.accepts.iter().filter(|a| a.node == c.to).all(|a| closes(&a.side.w) && answers(&a.side.w)) {
+            continue;
+        }
         let a_fwd = accts.get(&(k, c.node)).cloned().unwrap_or_default();
         let a_rev = accts.get(&(k, c.to)).cloned().unwrap_or_default();
         let fwd_ok = a_fwd.written == n_conn && a_fwd.read + 8 == n_conn && a_fwd.eof.is_some();
@@ -155,6 +234,14 @@ pub fn check(sc: &Scenario, out: &RunOutput) -> OracleResult {
             honest_ok += 1;
         } else {
             let t = err.map(|e| e.0).or(connect_res.get(&k).map(|c| c.0)).unwrap_or(out.t_end);
+            // context for F31: one end of this connection had a send refused (socket full) and
+            // was not polled again when the socket became writable (its wake-up went to another
+            // connection of the same socket)
+            let lost_wakeup = syn_id.get(&k).is_some_and(|x| {
+                let ends = [(sc.addr(c.node), x.wrapping_add(1)), (sc.addr(c.to), *x)];
+                ends.iter().any(|(local, send_id)| send_wakeup_lost(h, *local, *send_id, t))
+            });
+            let n_before = res.violations.len();
             res.violate(
                 P,
                 if k == 0 { "honest-connection-disturbed" } else { "connect-accept-service-disturbed" },
@@ -164,6 +251,9 @@ pub fn check(sc: &Scenario, out: &RunOutput) -> OracleResult {
                     k, c.node, c.to, c.at_ms, connect_res.get(&k).map(|c| &c.1), paired.get(&k), a_fwd.written, a_fwd.read, n_conn, a_fwd.eof.map(crate::hist::fmt_t), a_rev.written, a_rev.read, b_acc, err
                 ),
             );
+            if lost_wakeup && res.violations.len() > n_before {
+                res.violations.last_mut().unwrap().aux = Some(31);
+            }
         }
     }
 
@@ -191,4 +281,23 @@ pub fn check(sc: &Scenario, out: &RunOutput) -> OracleResult {
     res.hit("direct_attack_on_honest_connection", direct);
     res.relevant = hostile > 0;
     res
+}
+
+
+/// A send of the connection (`local`, send id) was refused with 'pending' before `until`, and
+/// the connection was not polled within the next 3 ms although the socket becomes writable
+/// within one: the wake-up was lost (the socket keeps one send waker; another connection of the
+/// same socket registered its own in the meantime).
+pub fn send_wakeup_lost(h: &crate::hist::History, local: std::net::SocketAddr, send_id: u16, until: T) -> bool {
+    let mut fails: Vec<T> = vec![];
+    let mut polls: Vec<T> = vec![];
+    for (t, ev) in &h.evs {
+        match ev {
+            Ev::SendFail { src, kind, pkt: Some(p), .. } if *src == local && *kind == "pending" && p.conn_id == send_id && *t <= until => fails.push(*t),
+            Ev::Probe(ProbeEvent::ConnPoll(s)) if s.key.local == local && s.key.conn_id_send == send_id => polls.push(*t),
+            Ev::Probe(ProbeEvent::ConnDropped(k)) if k.local == local && k.conn_id_send == send_id => polls.push(*t),
+            _ => {}
+        }
+    }
+    fails.iter().any(|tf| !polls.iter().any(|tp| *tp > *tf && *tp <= *tf + 3 * crate::hist::MS))
 }
